@@ -35,6 +35,8 @@ def configs(tier):
         add("ddr2x2-1p-K3-refresh-W10", refresh=True, K=3, window=10, **DDR2)
         add("ddr3x4-1p-K4-norefresh", refresh=False, K=4, **DDR3)
         add("ddr3x4-1p-K3-refresh-W8", refresh=True, K=3, window=8, **DDR3)
+        add("ddr3x4-rd2wr3-1p-K3-refresh-W8", refresh=True, K=3, window=8, rdphase=2, wrphase=3, **DDR3)       # other PHY read/write phase choices
+        add("ddr2x2-rd1wr0-1p-K3-norefresh", refresh=False, K=3, rdphase=1, wrphase=0, **DDR2)
         add("sdr-1p-K5-reads-norefresh", refresh=False, K=5, rd_only=True, **SDR)
         add("sdr-1p-K3-buffered-d4-norefresh", refresh=False, K=3, buffered=True, depth=4, **SDR)
         add("sdr-1p-K3-depth1-refresh-W10", refresh=True, K=3, window=10, depth=1, **SDR)        # command buffers of depth 1 / 0 are other LiteX primitives
@@ -57,6 +59,9 @@ def configs(tier):
         add("ddr3x4-1p-K5-norefresh", refresh=False, K=5, **DDR3)
         add("ddr3x4-1p-K4-refresh-W25", refresh=True, K=4, window=25, **DDR3)
         add("ddr3x4-2p-K2-refresh-W12", refresh=True, K=2, window=12, nports=2, **DDR3)
+        for (r, w) in ((0, 1), (1, 0), (3, 2), (0, 3)):
+            add("ddr3x4-rd%dwr%d-1p-K4-norefresh" % (r, w), refresh=False, K=4, rdphase=r, wrphase=w, **DDR3)
+        add("ddr2x2-rd0wr1-1p-K4-refresh-W14", refresh=True, K=4, window=14, rdphase=0, wrphase=1, **DDR2)
         add("sdr-1p-K3-zqcs-refresh-W25", refresh=True, K=3, window=25, tzqcs=3, zqcs_period=150, **SDR)
         add("sdr-1p-K3-postponing2-refresh-W14", refresh=True, K=3, window=14, postponing=2, **SDR)
     return cs
